@@ -285,8 +285,7 @@ def run_case(case):
         changed_fail = [ev for ev in changed_fail if "is no longer available" not in str(ev["args"][2])
                         or "(digest" in str(ev["args"][2])]
         if changed_fail and not hits:
-            counters["changed_failures_without_gremlin", "final_reads_of_outdated_inputs",
-                              "inputs_withdrawn_between_dispatch_and_launch", "dispatch_inputs_checked"] += len(changed_fail)
+            counters["changed_failures_without_gremlin"] += len(changed_fail)
             notes.append(f"{what}: {str(changed_fail[0]['args'])[:400]}")
         if drain_t:
             counters["gremlin_builds_drained"] += 1
@@ -321,7 +320,7 @@ def run_case(case):
                     if dok:
                         # available when the step was dispatched and its inputs were validated;
                         # a change was recorded in the short time before the command was launched
-                        counters["inputs_withdrawn_between_dispatch_and_launch", "dispatch_inputs_checked"] += 1
+                        counters["inputs_withdrawn_between_dispatch_and_launch"] += 1
                         continue
                 if not ok:
                     vio("command started although a declared input was not available",
@@ -458,5 +457,5 @@ def run_case(case):
             shutil.rmtree(sub, ignore_errors=True)
     return {"status": "violation" if violations else "held", "violations": violations,
             "counters": counters, "nontrivial": sorted(classes), "nontrivial_many": True,
-            "sets": {"situations": sorted(classes)},
+            "sets": {"situations": sorted(classes), "changed_failures_without_gremlin": notes[:3]},
             "sample": {"case": case["id"], "situations": sorted(classes)[:4], "notes": notes[:2]}}
